@@ -74,14 +74,14 @@ CLAIMED = {
     technique="TLA+ trace validation: pin-set balance evaluated by TLC on every recorded statement of the SQL workloads"),
  "C17": dict(
     category="model_checking",
-    text="Multimap (set of (key, row id) entries with Point / Range answers) is the oracle. The index objects of real tables (skip list, unique skip list, B-tree, hash; int / float / varchar keys incl. extremes, denormals, empty and 380-byte strings, hot duplicate keys, adjacent keys) are driven through the index.Index interface with insert-heavy then delete-heavy phases and key-changing updates; every 50 operations a battery of point lookups and full / bounded / half-open ordered scans; TLC validates every answer against Multimap. Concurrent clause: windows of 4 goroutines inserting / deleting / looking up on one shared index while ordered scans run, over never-touched sentinel entries; TLC decides with silent linearization steps whether each recorded history is explainable (atomic point operations; scans ordered, duplicate-free, containing everything present throughout and nothing never present).",
-    design_ref="DESIGN.md section 5 C17",
-    note="Trusted: TLC, recording drivers. Concurrency is sampled (seeds x GOMAXPROCS), windows of 160 calls; hash and unique kinds only sequentially. One open known finding (unique skip list over integer keys).",
-    technique="TLA+ contract spec as oracle; TLC trace validation of recorded index operation sequences and TLC linearizability check of concurrent histories"),
+    text="Multimap (set of (key, row id) entries with Point / Range answers) is the oracle. The index objects of real tables (skip list, unique skip list, B-tree, hash; int / float / varchar keys incl. extremes, denormals, empty and 380-byte strings, hot duplicate keys, adjacent keys) are driven through the index.Index interface with insert-heavy then delete-heavy phases and key-changing updates; every 50 operations a battery of point lookups and full / bounded / half-open ordered scans; TLC validates every answer against Multimap. Concurrent clause: windows of 4 goroutines inserting / deleting / looking up on one shared index while ordered scans run, over never-touched sentinel entries; TLC decides with silent linearization steps whether each recorded history is explainable (atomic point operations; scans ordered, duplicate-free, containing everything present throughout and nothing never present). Mechanism level: spec/SkipList (L1: FindNode latch coupling and go-backward case, validateNoChangeAndGetLock, split, node removal, iterator, update counters, page ids handed out again; one action per latch acquisition) is model-checked for 2-3 threads with lookups / removals / scans judged against the abstract map at their linearization steps, each of six defect switches must produce a counterexample; it is bound to the code by SkipListTrace (the node structure - entries, levels, forward entries, counters - read back from the real pages after every call of random sequential sequences equals the specification's state) and by replaying the model's counterexample schedules on the real list through a gate hook (judged as call histories).",
+    design_ref="DESIGN.md sections 0.4, 0.7 and 5 C17",
+    note="Trusted: TLC, recording drivers. Concurrency is sampled (seeds x GOMAXPROCS), windows of 160 calls, plus two replayed schedules; hash and unique kinds only sequentially. SkipList model: 4-5 keys, node capacity 3, 2 levels, <= 4 nodes; its latch protocol is not bound by latch-level traces. Open known findings: unique skip list over integer keys, B-tree ffff stopper.",
+    technique="TLA+ contract spec as oracle + TLA+ mechanism spec of the skip list; TLC model checking with defect switches, TLC trace validation of recorded operation sequences and of the real node structure, TLC linearizability check of concurrent histories and of replayed counterexample schedules"),
 
  "C01": dict(
     category="model_checking",
-    text="CrashModel is the oracle (Acceptable = committed table + any subset of the committing transactions). Seeded workloads of multi-statement transactions (small and 300-900-byte rows so that heaps grow, in-place / growing / shrinking / relocating updates, deletes, explicit aborts, conflict aborts between interleaved transactions, forced checkpoints) run on file-backed databases at pools of 16/24/32/128 frames under the recording disk wrapper; for EVERY prefix of the I/O list after the DDL the crash image is materialised, the real NewSamehadaDB restarted on it, the table read back and a new statement tried, plus torn variants of the next log write; TLC validates the annotated trace: restart succeeded, every returned commit is reflected, new statements are accepted.",
+    text="CrashModel is the oracle (Acceptable = committed table + any subset of the committing transactions). Seeded workloads of multi-statement transactions (small and 300-900-byte rows so that heaps grow, in-place / growing / shrinking / relocating updates, deletes, explicit aborts, conflict aborts between interleaved transactions, forced checkpoints) run on file-backed databases at pools of 16/24/32/128 frames under the recording disk wrapper; for EVERY prefix of the I/O list after the DDL the crash image is materialised, the real NewSamehadaDB restarted on it, the table read back and a new statement tried, plus torn variants of the next log write; TLC validates the annotated trace: restart succeeded, every returned commit is reflected, new statements are accepted. Further workloads: heaps that grow without checkpoints in a large pool, a long eviction-heavy run in 16 frames, and one transaction that marks rows on 40 pages in a 16-frame pool (undo and commit over more pages than the pool holds); torn variants also of file-extending page writes; every leaf observation goes on - the restarted engine commits one more row, crashes and is restarted once more: the tables must be the same and that row must be there.",
     design_ref="DESIGN.md section 5 C01", note=COMMON,
     technique="TLA+ mechanism spec (WalRecovery) model-checked; TLA+ contract spec (CrashModel) as oracle for exhaustive crash-point enumeration per recorded workload (restart of the real engine on every I/O prefix), judged by TLC trace validation"),
  "C02": dict(
@@ -96,7 +96,7 @@ CLAIMED = {
     technique="TLA+ trace validation of the recorded page-write / log-write / commit-return order against the write-ahead rules"),
  "C20": dict(
     category="model_checking",
-    text="For the crash images of the C01 workloads the recovery run itself is recorded through the same disk wrapper and crashed again after each of its own I/O calls (including 'recovery repeated from the same image'); every nested image is restarted and read back (thorough: nesting depth 2); TLC requires each nested observation to lie in the Acceptable set frozen at the first crash: nothing committed is lost, nothing uncommitted appears, restart succeeds and accepts statements.",
+    text="For the crash images of the C01 workloads the recovery run itself is recorded through the same disk wrapper and crashed again after each of its own I/O calls (including 'recovery repeated from the same image'); every nested image is restarted and read back (thorough: nesting depth 2); TLC requires each nested observation to lie in the Acceptable set frozen at the first crash: nothing committed is lost, nothing uncommitted appears, restart succeeds and accepts statements. Every nested observation goes on: the engine started on the nested image commits one more row, crashes and is started once more - the tables must be unchanged (recovery repeated after work) and the committed row present (clauses C20.repeat, C20.later).",
     design_ref="DESIGN.md section 5 C20", note=COMMON,
     technique="TLA+ contract spec as oracle; nested crash-point enumeration inside the recovery run, judged by TLC trace validation"),
 
@@ -117,7 +117,7 @@ CLAIMED = {
     category="model_checking",
     text="The RequestManager specification (request_manager.go + ExecuteSQL; clients with the enqueue / wake-send split, Run loop steps, workers with conflict aborts and re-queueing) is model-checked by TLC for OneReply, ExactlyOnce, WorkerBound and the liveness property Answered under weak fairness (3 clients, capacity 1; thorough: 4 clients, capacity 2, 2 workers) - with the pinned tree's unbuffered reply channel TLC finds the deadlock. On the code: the deadlock schedule is replayed with a gate hook and 103 callers (all must return), and windows of concurrent ExecuteSQL calls from 8 goroutines at GOMAXPROCS 1/4/16 (multi-row reads and conflicting multi-row updates with unique values, inserts of unique keys, a closing read) are recorded as invoke/return histories ordered by a shared atomic counter; TLC decides with silent linearization steps whether each history has a linearization (one result per call, its own; every effect exactly once; multi-row effects atomic; real-time order).",
     design_ref="DESIGN.md section 5 C12",
-    note="Trusted: TLC, the history recorder. Go scheduling is sampled (seeds x GOMAXPROCS), not enumerated; windows of 160 calls. The Run loop's own event trace (hook H5) is not validated yet.",
+    note="Trusted: TLC, the history recorder. Go scheduling is sampled (seeds x GOMAXPROCS), not enumerated; windows of 160 calls (plain, wide and row-relocating); a call that does not return within 60 s is recorded and is a violation (C12.stuck).",
     technique="TLA+ mechanism spec model-checked (safety + liveness); gate-hook replay of the deadlock schedule; TLC linearizability check of recorded concurrent call histories"),
 }
 
